@@ -25,3 +25,7 @@ Contained runContained(ContainedFn f, void *arg, double wallLimitSec);
 // Optional hook: called first from the SIGSEGV handler with the fault address;
 // returns true if the fault was handled (write-trap) and execution may resume.
 extern bool (*containSegvHook)(void *addr, void *ucontext);
+// second hook of the same kind (write-trap on const inputs, constmem.cc) and the hook for the single-step
+// trap that follows a store it let through
+extern bool (*containSegvHookConst)(void *addr, void *ucontext);
+extern bool (*containTrapHook)(void *ucontext);
